@@ -256,6 +256,8 @@ def validate(defs: dict, node, value, depth=0):
             return "too few items"
         if "maxItems" in node and len(value) > node["maxItems"]:
             return "too many items"
+        if node.get("uniqueItems") and any(value[i_] == value[j_] and type(value[i_]) is type(value[j_]) for i_ in range(len(value)) for j_ in range(i_)):
+            return "items are not unique"
         it = node.get("items")
         if isinstance(it, dict):
             for x in value:
@@ -286,3 +288,8 @@ _LEAVES = [w for w in CONSTANT_WITNESSES if w[0] in ("huge negative int", "nan",
                                                      "bool", "none", "small int", "float", "plain string", "empty tuple", "empty frozenset")]
 CONSTANT_WITNESSES += [(f"tuple holding {n} / another tuple holding it", [d, [d]]) for n, d in _LEAVES]
 CONSTANT_WITNESSES += [(f"frozenset holding {n} / a tuple holding it", {"frozenset": [d, [d]]}) for n, d in _LEAVES]
+# NaN is unequal to itself: `x in {1e999 - 1e999, -(1e999 - 1e999), 1}` folds to a frozenset with two NaN members, which the document writes as two
+# identical items (so do two equal tuples that each hold a NaN); a tuple may repeat any member
+CONSTANT_WITNESSES += [("frozenset with two NaN members", {"frozenset": [{"float": "nan"}, {"float": "nan"}, 1]}),
+                       ("frozenset with two complex NaN members", {"frozenset": [{"real": {"float": "nan"}, "imag": 0.0}, {"real": {"float": "nan"}, "imag": 0.0}]}),
+                       ("tuple with a repeated member", [1, 1, {"float": "nan"}, {"float": "nan"}])]
